@@ -26,6 +26,14 @@ class DC:
 class Color(enum.Enum):
     RED = 1
     BLUE = "blue"
+# a class and a class derived from it that declares the inherited member again with another type: what the base rejects the
+# derived class may accept
+@dataclasses.dataclass
+class Acct:
+    ident: int
+@dataclasses.dataclass
+class Legacy(Acct):
+    ident: str
 '''
 
 
@@ -52,7 +60,7 @@ def pool():
         "int": int, "str": str, "float": float, "Decimal": decimal.Decimal, "date": datetime.date,
         "datetime": datetime.datetime, "UUID": uuid.UUID, "list[int]": list[int],
         "dict[str,int]": dict[str, int], "DC": mod.DC, "Color": mod.Color,
-        "Literal": typing.Literal["a", 1], "None": NoneT,
+        "Literal": typing.Literal["a", 1], "None": NoneT, "Acct": mod.Acct, "Legacy": mod.Legacy,
     }
     utc = datetime.timezone.utc
     inputs = [
@@ -68,12 +76,18 @@ def pool():
         Fresh(lambda: memoryview(b'{"a": 1}'), "memoryview(b'{\"a\": 1}')"),
         Fresh(lambda: memoryview(b'["x", 2020-01-01]')[6:16], "memoryview(b'[\"x\", 2020-01-01]')[6:16]"),
         Fresh(lambda: memoryview(b"blue"), "memoryview(b'blue')"),
+        {"ident": "ab-12"}, {"ident": 5}, mod.Legacy(ident="zz"),
+        # long inputs: texts of more than 256 characters that only the whole text decides, long real collections
+        json.dumps(list(range(120))), json.dumps({f"k{i}": i for i in range(60)}), '{"a": ' + " " * 300 + "7}",
+        json.dumps(list(range(120))).encode(), list(range(400)), {f"k{i}": i for i in range(300)}, "9" * 300, "x" * 300,
+        '{"ident": ' + " " * 280 + '"ab-12"}',
     ]
     # values offered to marshal: valid instances of some member, plus a few of none
     mvalues = [
         None, True, 1, -7, 1.5, "1", "abc", "", "a", decimal.Decimal("1.5"), datetime.date(2020, 1, 1),
         datetime.datetime(2020, 1, 1, 12, tzinfo=utc), uuid.UUID(int=5), [1, 2], [], ["x"], {"a": 1}, {},
         {"a": "x"}, mod.DC(a=1), mod.Color.RED, mod.Color.BLUE, (1, 2), object(), 2, "blue",
+        mod.Acct(ident=3), mod.Legacy(ident="ab-12"), list(range(400)),
     ]
     return tys, inputs, mvalues
 
@@ -226,7 +240,7 @@ def run(ctx: Ctx) -> Outcome:
         "evaluations": len(events),
         "distinct_nontrivial": len(nontrivial),
         "rule": "model: every member tuple of length 2..4 x None placement x outcome assignment x direction; "
-                "real: ordered member tuples over the 12-type pool (all pairs; 3- and 4-tuples sampled in quick, "
+                "real: ordered member tuples over the 15-type pool (incl. a class and a subclass that re-types the inherited member) (all pairs; 3- and 4-tuples sampled in quick, "
                 "all 3-tuples in thorough) x spellings x input pool, two passes in different input orders on the "
                 "same routine; non-trivial = the first member rejects and a later member accepts",
         "union_annotations": tid,
